@@ -42,6 +42,9 @@ pub struct Cli {
     pub known: PathBuf,
     /// replay a witness file instead of generating a workload
     pub replay: Option<PathBuf>,
+    /// signature recorded in the witness being replayed (monitors without their own single-case
+    /// replay re-run the witness's tier and seed; the report then tells whether it reproduced)
+    pub replay_signature: Option<String>,
     /// free `--key value` pairs the binary may interpret (e.g. `--scale 0.1`, `--threads 4`)
     pub extra: BTreeMap<String, String>,
 }
@@ -85,6 +88,29 @@ impl Cli {
             .map(PathBuf::from)
             .unwrap_or_else(|| PathBuf::from(format!("{root}/known_findings.json")));
         let replay = take(&mut map, "replay").map(PathBuf::from);
+        let mut tier = tier;
+        let mut seed = seed;
+        let mut evidence = evidence;
+        let mut replay_signature = None;
+        if let Some(path) = &replay {
+            // a replay must not overwrite the tier's evidence file
+            if !std::env::args().any(|a| a == "--evidence") {
+                evidence = PathBuf::from(format!("{root}/.run/{prop}-replay-evidence.json"));
+            }
+            if let Ok(text) = std::fs::read_to_string(path)
+                && let Ok(w) = serde_json::from_str::<Value>(&text)
+            {
+                if let Some(s) = w.get("seed").and_then(|s| s.as_u64()) {
+                    seed = s;
+                }
+                if w.get("tier").and_then(|t| t.as_str()) == Some("thorough") {
+                    tier = Tier::Thorough;
+                } else if w.get("tier").is_some() {
+                    tier = Tier::Quick;
+                }
+                replay_signature = w.get("signature").and_then(|s| s.as_str()).map(|s| s.to_string());
+            }
+        }
         Cli {
             prop,
             tier,
@@ -93,6 +119,7 @@ impl Cli {
             replay_dir,
             known,
             replay,
+            replay_signature,
             extra: map,
         }
     }
@@ -161,6 +188,7 @@ pub struct Report {
     evidence: PathBuf,
     replay_dir: PathBuf,
     known_path: PathBuf,
+    replay_signature: Option<String>,
 }
 
 fn fnv(s: &str) -> u64 {
@@ -195,6 +223,7 @@ impl Report {
             evidence: cli.evidence.clone(),
             replay_dir: cli.replay_dir.clone(),
             known_path: cli.known.clone(),
+            replay_signature: cli.replay_signature.clone(),
         }
     }
 
@@ -341,6 +370,7 @@ impl Report {
             evidence: self.evidence.clone(),
             replay_dir: self.replay_dir.clone(),
             known_path: self.known_path.clone(),
+            replay_signature: self.replay_signature.clone(),
         }
     }
 
@@ -368,6 +398,12 @@ impl Report {
 
     /// Writes the evidence file, replay files and the verdict lines. Returns the exit code.
     pub fn finish(mut self) -> i32 {
+        if let Some(sig) = self.replay_signature.clone() {
+            // replay of a witness: only the recorded signature counts
+            let n: u64 = self.violations.iter().filter(|v| v.signature == sig).map(|v| v.count).sum();
+            self.violations.retain(|v| v.signature == sig);
+            println!("[{}] REPLAY of signature {sig}: {}", self.prop, if n > 0 { format!("reproduced ({n}x)") } else { "not reproduced".to_string() });
+        }
         let known = self.load_known();
         let wall = self.start.elapsed().as_secs_f64();
         let mut new_violations: Vec<(Violation, PathBuf)> = vec![];
